@@ -205,6 +205,100 @@ CASES = {
             a = _check(x)
             return a + "!"
         ''', [(1,), (2,), (3,), (4,)]),
+    "cf_single_exit": ('''
+        LOG = []
+        def t(x):
+            LOG.append(("t", x))
+            return x
+        def anchor(d, key):
+            if not d:
+                t("empty")
+                result = ()
+            elif key not in d:
+                t("nokey")
+                result = ()
+            else:
+                fields = {}
+                for k, v in d.items():
+                    fields[k] = v
+                    if k == key:
+                        break
+                else:
+                    raise KeyError(key)
+                result = tuple(fields.items())
+            return result, tuple(LOG)
+        def anchor2(a, b):
+            LOG.clear()
+            x = t(a) if t(b) else t(-1)
+            y = x or t("dflt")
+            if not y:
+                y = t("again")
+            return (y if y != 3 else t("three")), tuple(LOG)
+        ''', [({}, 1), ({1: 2}, 3), ({1: 2, 3: 4, 5: 6}, 3), ({1: 2}, 1), (0, 0), (3, 1), (0, 1), (2, 0)]),
+    "cf_for_else": ('''
+        LOG = []
+        def t(x):
+            LOG.append(x)
+            return x
+        def anchor(xs, s):
+            LOG.clear()
+            kind = "none"
+            for sym in xs:
+                if t(sym) in s:
+                    t("hit")
+                    kind = "search"
+                    break
+            else:
+                t("miss")
+                return ("plain", tuple(LOG))
+            return (kind, tuple(LOG))
+        def anchor2(xs, s):
+            LOG.clear()
+            found = False
+            for x in xs:
+                if t(x) in s:
+                    found = True
+            for x in xs:
+                if x == s:
+                    break
+            else:
+                t("no-equal")
+            return found, tuple(LOG)
+        def run(xs, s):
+            LOG.clear()
+            for x in xs:
+                t(x)
+                if x in s:
+                    break
+            else:
+                raise ValueError(tuple(LOG))
+            r = t(("ok", x))
+            return r, tuple(LOG)
+        ''', [("*>", "a/*"), ("*>", "a/b"), ("", "a"), ("ab", "b"), (["a", "b"], "b")]),
+    "cf_sink_and_or": ('''
+        LOG = []
+        def t(x):
+            LOG.append(x)
+            return x
+        def anchor(c, v):
+            LOG.clear()
+            if t(c):
+                arg = t("left")
+            else:
+                arg = t("right")
+            out = (t("call"), arg)
+            if v:
+                conf = v
+            else:
+                conf = t("default")
+            return out, conf, tuple(LOG)
+        def anchor2(v, w):
+            LOG.clear()
+            if v:
+                return v
+            else:
+                return w or (t("x") or t(0) or "end")
+        ''', [(0, 0), (1, 0), (0, "u"), (1, "u"), ("", "")]),
 }
 
 CROSS = {
@@ -272,7 +366,7 @@ def run_case(name, src, inputs) -> list:
                 ra, rb = _call(ns_a, fname, _c.deepcopy(args)), _call(ns_b, fname, _c.deepcopy(args))
                 if ra != rb:
                     problems.append(f"{name}.{fname}{args}: original {ra} != normal form {rb}\n{new_src}")
-        if report["inlined_calls"] == 0 and not report.get("unrolled_tables"):
+        if report["inlined_calls"] == 0 and not report.get("unrolled_tables") and not report.get("control_flow_rewrites"):
             problems.append(f"{name}: report says nothing happened")
     finally:
         shutil.rmtree(d, ignore_errors=True)
